@@ -59,12 +59,18 @@ def c07():
                       "shortened / lengthened paths: whenever a proof with m path hashes verifies, exactly m+1 hashes were computed (no early acceptance, no skipped element) - needs no hash assumption  [thorough-tier ATTEMPT: 2 leaves did not finish in 660 s]",
                       "%d leaves, every leaf, honest proof with an arbitrary hash appended / prepended or an end removed" % n,
                       env={"VH_NLEAF": n}, tag="_n%d" % n, est=150 * n, loops=HL, replay="model"))
-    for n, plens, tiers in [(3, (0, 1, 2, 3), "qt"), (4, (0, 1, 2, 3), "qt"), (5, (0, 1, 3, 4), "t"), (7, (0, 2, 4, 5), "t")]:
+    def msize(n):
+        return 2 * n - bin(n).count("1")
+    FOLD = ("MerkleProof::verify on an ARBITRARY proof accepts exactly when the defining fold over the WHOLE path (element hash at its position, one sibling per level, "
+            "bagged right peaks, left peaks) yields the root: no early acceptance, no skipped or reordered hash, right hash indices; altered / shortened / lengthened "
+            "proofs are then rejected unless the hash collides")
+    for n, plens, tiers in [(3, (0, 1, 2, 3), "qt"), (4, (2, 3), "t"), (5, (1, 3, 4), "t"), (7, (2, 4, 5), "t")]:
         for pl_ in plens:
-            obs.append(ob("c07b::verify_is_the_defining_fold", tiers, 8,
-                          "MerkleProof::verify on an ARBITRARY proof accepts exactly when the defining fold over the WHOLE path (element hash at its position, one sibling per level, bagged right peaks, left peaks) yields the root: no early acceptance, no skipped or reordered hash, right hash indices; altered / shortened / lengthened proofs are then rejected unless the hash collides",
-                          "%d leaves, EVERY position of the mmr, path of %d symbolic hashes, symbolic element and root" % (n, pl_),
-                          env={"VH_NLEAF": n, "VH_PLEN": pl_}, tag="_n%d_p%d" % (n, pl_), est=150, loops=HL, recurse={"MerkleProof::verify": pl_ + 3, "MerkleProof::verify_consume": pl_ + 3}))
+            for pos in range(msize(n)):
+                obs.append(ob("c07b::verify_is_the_defining_fold", tiers, 8, FOLD,
+                              "%d leaves, position %d, path of %d symbolic hashes, symbolic element and root" % (n, pos, pl_),
+                              env={"VH_NLEAF": n, "VH_PLEN": pl_, "VH_POS": pos}, tag="_n%d_p%d_at%d" % (n, pl_, pos), est=100, loops=HL,
+                              recurse={"MerkleProof::verify": pl_ + 3, "MerkleProof::verify_consume": pl_ + 3}))
     for n, leaf, kind in [(2, 1, 1), (2, 1, 2), (2, 1, 3), (3, 2, 1), (3, 2, 3)]:
         obs.append(ob("c07b::merkle_proof_sound", "t", 8,
                       "under the ideal hash: other element (kind 1) / other position (2) / altered path hash (3) never verify  [thorough-tier ATTEMPT: did not finish in 30 min at 3 leaves]",
@@ -449,6 +455,16 @@ def c08():
         e = {"VH_K": k, "VH_LIM": lim}
         obs.append(ob("c08::prune_list_iterators", tiers, 8, "[ATTEMPT: 660 s / 18 GB not enough even on 15 positions] unpruned_iter / unpruned_leaf_iter / iter / pruned_bintree_range_iter enumerate exactly the unpruned positions / leaves / roots / pruned ranges",
                       "pre-state: K = %d, " % k + PL % lim + "; cutoff symbolic", env=e, tag="_k%d_l%d" % (k, lim), est=300, loops=dict(L, prune_list_iterators=lim + 3), recurse={"next": k + 3}, mem_est_gb=12))
+    BL = {"peak_map_height": 8, "bitmap_from_bits": 66, "bits_of": 66, "leaves1": 66, "leaf_set_rewind": 66, "removed_excl_roots_keeps_roots": 66, "closure": 66, "roots_of": 66}
+    for lim, tiers in [(15, "qt"), (31, "t")]:
+        obs.append(ob("c08::removed_excl_roots_keeps_roots", tiers, lim + 3, "removed_excl_roots keeps exactly the removed positions whose parent is not removed (their hashes stay available for Merkle proofs)",
+                      "any set of positions < %d" % lim, env={"VH_LIM": lim, "VH_K": 0}, tag="_l%d" % lim, est=200, loops=BL))
+    for lim, tiers in [(31, "qt"), (63, "t")]:
+        obs.append(ob("c08::leaf_set_rewind", tiers, 8, "LeafSet::rewind(cutoff, removed) = (set restricted to positions <= cutoff) united with removed; includes / len / is_empty / n_unpruned_leaves_to_index / add / remove are the set operations",
+                      "any leaf set and any removed set over positions < %d, any cutoff" % lim, env={"VH_LIM": lim, "VH_K": 0}, tag="_l%d" % lim, est=60, loops=BL))
+    for k, lim, tiers in [(0, 15, "qt"), (1, 15, "qt"), (2, 15, "qt"), (2, 31, "t")]:
+        obs.append(ob("c08::leaf_set_removed_pre_cutoff", tiers, lim + 3, "LeafSet::removed_pre_cutoff = leaf positions up to the cutoff that are neither unspent at the cutoff (set restricted to the cutoff plus the positions removed since) nor already pruned: exactly what a compaction at that cutoff may remove",
+                      "any leaf set / removed set over positions < %d, any cutoff, prune list: K = %d " % (lim, k) + PL % lim, env={"VH_LIM": lim, "VH_K": k}, tag="_k%d_l%d" % (k, lim), est=300, loops=BL, mem_est_gb=8))
     for k, lim, tiers in [(1, 31, "t"), (2, 31, "t")]:
         obs.append(ob("c08::prune_list_new_matches_definition", tiers, 8, "PruneList::new over K ascending disjoint subtrees (siblings allowed: roll-up inside new) equals the definition", "K = %d positions < %d, symbolic" % (k, lim), env={"VH_K": k, "VH_LIM": lim}, tag="_k%d_l%d" % (k, lim), est=900, loops=dict(L, **{"PruneList3new": k + 2}), recurse={"PruneList::append": 6}, mem_est_gb=20))
     return {
